@@ -6,6 +6,8 @@
 mod out;
 mod c11;
 mod c12;
+mod c13;
+mod c14;
 mod c15;
 mod c16;
 mod c38;
@@ -20,10 +22,12 @@ fn main() {
     let seed: u64 = args.get(3).and_then(|s| s.parse().ok()).unwrap_or(0);
     let work = args.get(4).cloned().unwrap_or_else(|| "/verif/work/native".to_string());
     let quick = tier != "thorough";
-    std::panic::set_hook(Box::new(|_| {}));
+    if std::env::var("QE_NATIVE_PANIC_MSG").is_err() { std::panic::set_hook(Box::new(|_| {})); }
     let o = match sub {
         "c11" => c11::run(quick, seed, &work),
         "c12" => c12::run(quick, seed),
+        "c13" => c13::run(quick, seed, &work),
+        "c14" => c14::run(quick, seed, &work),
         "c15" => c15::run(quick, seed),
         "c16" => c16::run(quick, seed),
         "c38" => c38::run(quick, seed),
